@@ -207,6 +207,11 @@ def c_lints(ctx, P, scope, rule="C-LINT", tus=None):
     dead_stores(ctx, P, scope, tus=tus)
     width_and_flags(ctx, P, scope, tus=[k for k in (tus or LIB_TUS + ["kastore"]) if k != "module"])
     map_two_pass(ctx, P, scope, tus=[k for k in (tus or LIB_TUS) if k != "module"])
+    from . import lib_kind
+    ltus = [k for k in (tus or LIB_TUS) if k not in ("module", "kastore")]
+    lib_kind.minmax_kind(ctx, P, scope, tus=ltus)
+    lib_kind.alloc_domain(ctx, P, scope, tus=ltus)
+    lib_kind.span_kind(ctx, P, None, scope, tus=ltus)
     return n
 
 
